@@ -18,6 +18,8 @@ func TestSim(t *testing.T) {
 			switch prop {
 			case "C07":
 				RunC07(st, tier, leg, logOn, res)
+			case "C05":
+				RunC05(st, tier, leg, logOn, res)
 			default:
 				panic("unknown SIM_PROP " + prop)
 			}
